@@ -17,7 +17,8 @@ def run(c):
         trace = c.replay
     else:
         c.mc("SegIDChain", "SegIDChainMC.%s.cfg" % c.tier, workers=4 if not c.thorough else 8, timeout=1500)
-        _dp.model(c)
+        if c.thorough:      # SegIDInSync on the topology families (quick: the chain model only)
+            _dp.model(c)
         trace = c.scratch + "/line.ndjson"
         c.run_driver(drv, ["-mode", "line", "-out", trace])
     _dp.validate(c, "C22", trace)
